@@ -1160,6 +1160,9 @@ class Layout:
     trailing_comments: bool = True
     split_every: int = 0  # split every n-th splittable statement with '&'
     lead_amp: bool = False
+    split_pos: int = 0  # 0: break a statement in the middle; k > 0: after its (1 + (k-1) mod (n-1))-th piece, e.g. right after the keyword
+    amp_tight: bool = False  # with lead_amp: the text follows the leading '&' directly ('&name' instead of '& name')
+    cont_col1: bool = False  # without lead_amp: the continuation line starts in column 1
     join_every: int = 0  # join every n-th pair of simple statements with ';'
     space_end: str = " "  # 'end subroutine' vs 'endsubroutine' (only for constructs that allow it)
     fixed: bool = False
@@ -1183,6 +1186,9 @@ layout_st = st.builds(
     trailing_comments=st.booleans(),
     split_every=st.sampled_from([0, 0, 1, 2, 3]),
     lead_amp=st.booleans(),
+    amp_tight=st.booleans(),
+    split_pos=st.sampled_from([0, 0, 1, 1, 2, 3, 5]),
+    cont_col1=st.booleans(),
     join_every=st.sampled_from([0, 0, 2, 3]),
     space_end=st.sampled_from([" ", " ", "  "]),
     end_style=st.sampled_from(["full", "full", "kw", "bare", "joined"]),
@@ -1382,7 +1388,7 @@ def render(prog: Program, layout: Layout = PLAIN, suffix=None) -> Rendered:
             first_line = len(lines)
             cur = ind
             if do_split:
-                k = max(1, len(pieces) // 2)
+                k = max(1, len(pieces) // 2) if not layout.split_pos else 1 + (layout.split_pos - 1) % (len(pieces) - 1)
                 # never split inside a character literal piece (pieces are atomic anyway)
                 for txt, ref in pieces[:k]:
                     if ref is not None:
@@ -1392,7 +1398,10 @@ def render(prog: Program, layout: Layout = PLAIN, suffix=None) -> Rendered:
                 lines.append(cur)
                 if layout.comment_every and nsplit % 2 == 0:
                     lines.append(ind + "  ! comment between continuation lines")
-                cur = ind + "    " + ("& " if layout.lead_amp else "")
+                if layout.lead_amp:
+                    cur = ind + "    " + ("&" if layout.amp_tight else "& ")
+                else:
+                    cur = "" if layout.cont_col1 else ind + "    "
                 for txt, ref in pieces[k:]:
                     if ref is not None:
                         occs.append(Occ(name, len(lines), len(cur), txt, ref.ent, ref.role, s.scope, s, ref._ti, True, False))
